@@ -22,6 +22,8 @@ Definition error : Type := list nat.
 Definition err_nil : error := [].
 Definition err_is_nil (e : error) : bool := match e with [] => true | _ :: _ => false end.
 Definition err_join (a b : error) : error := a ++ b.
+(* an error value that is not the failure of a Write attempt (io.ErrShortWrite and the like, where a function makes one up) *)
+Definition err_other : error := [0%nat; 0%nat].
 
 (* the result (n, err) of the k-th Write attempt, as decided by the oracle [wres]:
    [fst (wres k)] = the count it reports, [snd (wres k)] = it returns a non-nil error *)
@@ -124,6 +126,10 @@ Definition sl_append_in (s : gslice) (p : bytes) : option gslice :=
    range panic, or with panic(v); the state is the one it leaves behind *)
 Inductive bres (R S : Type) : Type := BOk (r : R) (st : S) | BRange (st : S) | BPanic (p : bytes) (st : S).
 Arguments BOk {R S} r st. Arguments BRange {R S} st. Arguments BPanic {R S} p st.
+
+(* l[a:] on a slice whose capacity does not matter (a list): panics outside 0..len(l) *)
+Definition list_from {A : Type} (l : list A) (a : Z) : option (list A) :=
+  if (a <? 0) || (Z.of_nat (List.length l) <? a) then None else Some (skipn (Z.to_nat a) l).
 
 (* a loop inside a function that ends in a bres: a round of the loop goes on with a new loop state (LbNext),
    leaves the loop (LbBreak: the condition is false, or break), or ENDS THE FUNCTION (LbEnd: a return, a range
